@@ -134,7 +134,8 @@ def validate_dedup(rep, run, A, depth, cfg):
 
 def bfs(rep, run, A, depth, cfg, label):
     seen = set()
-    frontier = [[]]
+    # a configuration may name a non-initial start state by the history that reaches it
+    frontier = [list(cfg.get("prefix") or [])]
     for level in range(1, depth + 1):
         jobs = [(h + [a], cfg) for h in frontier if not (h and terminal(h[-1])) for a in A]
         res = core.pmap(run, jobs)
